@@ -2,7 +2,7 @@
 #include "sm2_z256.h"
 #include "rand.h"
 int sm2_z256_rand_range(sm2_z256_t r, const sm2_z256_t range)
-REQUIRES(W_OK(r, 32) && R_OK(range, 32) && SEPARATE(r, range))
+REQUIRES(WR_OK(r, 32) && RD_OK(range, 32) && SEPARATE(r, range))
 ASSIGNS(OBJ_UPTO(r, 32), G_rb_fail, G_rb_calls, G_rb_buf, G_rb_len)
 ENSURES(RET == 1 || RET == 0 || RET == -1)
 /* fail closed: a failed draw is reported, a success means no draw failed, at least one draw was made, into r, of 32 bytes */
